@@ -108,6 +108,9 @@ pub struct Opts {
     pub global: bool,
     pub final_only: bool,
     pub nested: bool,
+    /// extra calls that must not change the requests: bit 0 a rejected asid() after the options, bit 1 a rejected asid() before
+    /// them, bit 2 every value-carrying option first set to another valid value ("last call wins")
+    pub noise: u8,
 }
 
 pub fn invlpgb_case<S: x86_64::structures::paging::page::NotGiantPageSize>(r: &mut Rep, inv: &Invlpgb, count_max: u16, start: u64, npages: u64, o: Opts) {
@@ -124,6 +127,16 @@ pub fn invlpgb_case<S: x86_64::structures::paging::page::NotGiantPageSize>(r: &m
     cpu().clear_events();
     let res = run_fault(|| {
         let mut b0 = inv.build();
+        let bad_asid = inv.nasid().min(0xffff) as u16; // first value outside 0..nasid
+        if o.noise & 2 != 0 {
+            let _ = unsafe { b0.asid(bad_asid) }.is_err();
+        }
+        if o.noise & 4 != 0 && o.pre & 1 != 0 && o.pcid.is_some() {
+            unsafe { b0.pcid(Pcid::new(0x123).unwrap()) };
+        }
+        if o.noise & 4 != 0 && o.pre & 2 != 0 && o.asid.is_some() {
+            unsafe { b0.asid(1).ok() };
+        }
         // options applied before pages()
         if o.pre & 1 != 0 {
             if let Some(p) = o.pcid {
@@ -143,6 +156,12 @@ pub fn invlpgb_case<S: x86_64::structures::paging::page::NotGiantPageSize>(r: &m
         }
         let b0 = if o.pre & 16 != 0 && o.nested { b0.include_nested_translations() } else { b0 };
         let mut b = b0.pages(range);
+        if o.noise & 4 != 0 && o.pre & 1 == 0 && o.pcid.is_some() {
+            unsafe { b.pcid(Pcid::new(0x123).unwrap()) };
+        }
+        if o.noise & 4 != 0 && o.pre & 2 == 0 && o.asid.is_some() {
+            unsafe { b.asid(1).ok() };
+        }
         if o.pre & 1 == 0 {
             if let Some(p) = o.pcid {
                 unsafe { b.pcid(Pcid::new(p).unwrap()) };
@@ -159,7 +178,10 @@ pub fn invlpgb_case<S: x86_64::structures::paging::page::NotGiantPageSize>(r: &m
         if o.pre & 8 == 0 && o.final_only {
             b.final_translation_only();
         }
-        let b = if o.pre & 16 == 0 && o.nested { b.include_nested_translations() } else { b };
+        let mut b = if o.pre & 16 == 0 && o.nested { b.include_nested_translations() } else { b };
+        if o.noise & 1 != 0 {
+            let _ = unsafe { b.asid(bad_asid) }.is_err();
+        }
         b.flush();
     });
     let ev = cpu().evs();
@@ -273,7 +295,7 @@ fn invlpgb_all(r: &mut Rep, a: &Args) {
             }
             let lens: Vec<u64> = if a.thorough() { (0..=20).chain([63, 64, 65, 255, 256, 257, 300]).collect() } else { vec![0, 1, 2, 3, 4, 7, 8, 9, 20, 257] };
             for opt in 0..32u32 {
-                let o = Opts { pre: 0, pcid: (opt & 1 != 0).then_some(0xabc), asid: (opt & 2 != 0).then_some(7), global: opt & 4 != 0, final_only: opt & 8 != 0, nested: opt & 16 != 0 && nested_sup };
+                let o = Opts { pre: 0, pcid: (opt & 1 != 0).then_some(0xabc), asid: (opt & 2 != 0).then_some(7), global: opt & 4 != 0, final_only: opt & 8 != 0, nested: opt & 16 != 0 && nested_sup, noise: 0 };
                 if opt & 16 != 0 && !nested_sup {
                     // documented assertion: nested flush unsupported => panic, nothing flushed
                     if opt == 16 {
@@ -318,7 +340,7 @@ fn invlpgb_all(r: &mut Rep, a: &Args) {
                 let mut pre = opt;
                 loop {
                     // pre runs through all submasks of opt
-                    let o = Opts { pre, pcid: (opt & 1 != 0).then_some(0x5a5), asid: (opt & 2 != 0).then_some(3), global: opt & 4 != 0, final_only: opt & 8 != 0, nested: opt & 16 != 0 };
+                    let o = Opts { pre, pcid: (opt & 1 != 0).then_some(0x5a5), asid: (opt & 2 != 0).then_some(3), global: opt & 4 != 0, final_only: opt & 8 != 0, nested: opt & 16 != 0, noise: 0 };
                     if pre != 0 {
                         invlpgb_case::<Size4KiB>(r, &inv, cm, 0x7000_0000, 5, o);
                         invlpgb_case::<Size2MiB>(r, &inv, cm, 0xffff_8000_0000_0000, 2, o);
@@ -329,8 +351,21 @@ fn invlpgb_all(r: &mut Rep, a: &Args) {
                     pre = (pre - 1) & opt;
                 }
             }
+            // histories with calls that must not matter: rejected asid() calls before / after the options, options set twice
+            for opt in [0u32, 1, 2, 3, 7, 31] {
+                if opt & 16 != 0 && !nested_sup {
+                    continue;
+                }
+                for noise in 1..8u8 {
+                    for pre in [0u32, opt] {
+                        let o = Opts { pre, pcid: (opt & 1 != 0).then_some(0x5a5), asid: (opt & 2 != 0).then_some(3), global: opt & 4 != 0, final_only: opt & 8 != 0, nested: opt & 16 != 0, noise };
+                        invlpgb_case::<Size4KiB>(r, &inv, cm, 0x7000_0000, 5, o);
+                        invlpgb_case::<Size2MiB>(r, &inv, cm, from_pos((1u64 << 47) - 0x20_0000), 2, o);
+                    }
+                }
+            }
             if a.thorough() && cm >= 255 {
-                invlpgb_case::<Size4KiB>(r, &inv, cm, (1u64 << 47) - 70_000 * 4096, 70_000 + 10, Opts { pre: 0, pcid: None, asid: None, global: false, final_only: false, nested: false });
+                invlpgb_case::<Size4KiB>(r, &inv, cm, (1u64 << 47) - 70_000 * 4096, 70_000 + 10, Opts { pre: 0, pcid: None, asid: None, global: false, final_only: false, nested: false, noise: 0 });
             }
         }
     }
